@@ -118,14 +118,20 @@ def c04_default(report, cfg):
         engine_guard(go, report, "R4.2", ikey)
 
 
+def compress_hook_rx(w):
+    return r"^blake_hash::u%dx4::put_block::<" % w
+
+
 def compress_hook(name, ctype, variant):
     w = B.PARAMS[variant][0]
 
     def h(it, key, args, callee):
-        selfp, blockp, t = args
+        # the Machine-generic body  uNNx4::put_block::<M>(mach, state, block, t): every path to the
+        # compression function (per-block method, block-run helper, any dispatch arm) ends here
+        selfp, blockp, t = args[-3:]
         comp = it.deref_read(selfp, ctype)
         hb = it.to_bits(comp, ctype)
-        gt = it.ty.get(it.ins[key]["body"]["locals"][2])["pointee"]
+        gt = it.ty.get(it.ins[key]["body"]["locals"][len(args) - 1])["pointee"]
         blk = it.to_bits(it.deref_read(blockp, gt), gt)
         new = bv.ufn(name, (hb, blk, t.f[0], t.f[1]), len(hb))
         it.deref_write(selfp, ctype, it.from_bits(new, ctype))
@@ -175,7 +181,7 @@ def c04_finalize(report, cfg, positions=None, only=None):
         ufn_name = "BLAKE%d_COMPRESS" % (256 if w == 32 else 512)
         t = "blake_hash::%s" % name
         fin = find(f, r"^<blake_hash::%s as digest::fixed::FixedOutputDirty>::finalize_into_dirty$" % name)
-        hooks = {r"^blake_hash::Compressor%d::put_block$" % (256 if w == 32 else 512): compress_hook(ufn_name, ctype, variant)}
+        hooks = {compress_hook_rx(w): compress_hook(ufn_name, ctype, variant)}
         plist = positions(bb) if positions else range(bb)
         bad_positions = []
         done = 0
@@ -207,7 +213,7 @@ def c04_finalize(report, cfg, positions=None, only=None):
                 i = bv.first_diff(got, exp)
                 if i is not None:
                     report.violated("R4.3", ikey, "%s finalisation with %d buffered bytes: digest byte %d differs from the specified padding/length/counter sequence"
-                                    % (name, p, i // 8), graphs=(got, exp))
+                                    % (name, p, i // 8), graphs=(got, exp), boundary=(it, 1))
                     return False
                 return True
             r = engine_guard(go, report, "R4.3", ikey)
@@ -259,7 +265,7 @@ def c04_update(report, cfg, rule="R17.1"):
         ufn_name = "BLAKE%d_COMPRESS" % (256 if w == 32 else 512)
         t = "blake_hash::%s" % name
         upd = find(f, r"^<blake_hash::%s as digest::Update>::update::<&\[u8\]>$" % name)
-        hooks = {r"^blake_hash::Compressor%d::put_block$" % (256 if w == 32 else 512): compress_hook(ufn_name, ctype, variant)}
+        hooks = {compress_hook_rx(w): compress_hook(ufn_name, ctype, variant)}
         for p in (0, 1, bb - 1):
             for ln in (0, 1, bb - p - 1 if bb - p - 1 > 1 else 2, bb - p, bb, 2 * bb + 3):
                 ikey = "%s::update pos=%d len=%d@%s" % (name, p, ln, cfg)
@@ -301,7 +307,7 @@ def c04_update(report, cfg, rule="R17.1"):
                                         graphs=(tt.f[0] + tt.f[1], e0 + e1))
                     elif it.to_bits(comp2, ctype) != bv.concat(h):
                         report.violated(rule, ikey, "%s::update: blocks or per-block counters fed to the compression function differ from the stream's complete blocks" % name,
-                                        graphs=(it.to_bits(comp2, ctype), bv.concat(h)))
+                                        graphs=(it.to_bits(comp2, ctype), bv.concat(h)), boundary=(it, nfull))
                     elif bv.const_value(pos2) != (p + ln) - nfull * bb:
                         report.violated(rule, ikey, "%s::update: wrong number of buffered bytes" % name)
                     else:
